@@ -2,8 +2,10 @@
 (* C04 (tokenisation) - unspaced text is cut into keywords, names, numbers as documented.
 
    Characters are symbols; one symbol = one character of the source:
-     keyword glyphs  bu 不  wei 为  da 大  yu 于  deng 等  ru 如  guo 果  he 何  jie 结  shu 束  xun 循
-                     huan 环  de 的  zhu 注     (all of them are also ordinary identifier characters)
+     keyword glyphs  bu 不  wei 为  da 大  yu 于  deng 等  ru 如  guo 果  he 何  jie 结  shu 束  xun 循  huan 环  de 的  zhu 注
+                     and the glyphs of the other keywords (ling 令, heng 恒, zai 再, shr 输, chu 出, she 设, xiao 小, yi 以, fou 否, ze 则, mei 每,
+                     dang 当, xin 新, jian 建, ding 定, yiy 义, qi 其, huo 或, qie 且, zhi 之, lan 拦, jiey 截, ruy 入, bian 遍, li 历, dao 导, dey 得,
+                     daoy 到, pao 抛, ji 继, xu 续)     (all of them are also ordinary identifier characters)
      L  an ordinary letter (CJK / Latin / kana / hangul)     D  a digit
      "+" "-" "*" "/"    "%" remainder sign    sp  space    bt  back-tick    col ：    dot .    eq =    lq “    rq ”
    Documented priority:  comment > text literal > back-ticked identifier > punctuation > operator >
@@ -18,15 +20,19 @@ EXTENDS Integers, Sequences, FiniteSets, TLC, Json
 
 CONSTANTS MaxLen, Alphabet
 
-Glyphs == {"bu", "wei", "da", "yu", "deng", "ru", "guo", "he", "jie", "shu", "xun", "huan", "de", "zhu"}
+\* the glyphs the keywords are spelled with (all of them are also ordinary identifier characters)
+Glyphs == {"bian", "bu", "chu", "da", "dang", "dao", "daoy", "de", "deng", "dey", "ding", "fou", "guo", "he", "heng", "huan", "huo", "ji", "jian", "jie", "jiey", "lan", "li", "ling", "mei", "pao", "qi", "qie", "ru", "ruy", "she", "shr", "shu", "wei", "xiao", "xin", "xu", "xun", "yi", "yiy", "yu", "zai", "ze", "zhi", "zhu"}
 IdStart == Glyphs \cup {"L", "D", "+", "-"}            \* characters of the identifier table
 IdCont == IdStart \cup {"dot", "*", "/", "%"}          \* may continue an identifier ( . * / % )
 Quotes == {"lq", "rq"}
 Puncts == {"col"}
-\* the keyword table (the entries spellable in this alphabet)
-KW == << <<"bu", "wei">>, <<"bu", "da", "yu">>, <<"bu", "deng", "yu">>, <<"wei">>, <<"da", "yu">>, <<"deng", "yu">>,
-         <<"ru", "guo">>, <<"ru", "he">>, <<"he", "wei">>, <<"jie", "shu", "xun", "huan">>, <<"de">> >>
-KWName == << "LogicNo", "LogicLte", "LogicNotEq", "LogicYes", "LogicGt", "LogicEqual", "Cond", "Func", "Getter", "Break", "ObjDotII" >>
+\* the complete keyword table of the manual (34 keywords)
+KW == << <<"ling">>, <<"wei">>, <<"heng", "wei">>, <<"zai", "ru">>, <<"ru", "guo">>, <<"ru", "he">>, <<"he", "wei">>, <<"shr", "chu">>, <<"she", "wei">>, <<"bu", "wei">>, <<"bu", "deng", "yu">>, <<"bu", "da", "yu">>, <<"bu", "xiao", "yu">>, <<"xiao", "yu">>, <<"da", "yu">>, <<"yi">>, <<"fou", "ze">>, <<"mei", "dang">>, <<"xin", "jian">>, <<"ding", "yiy">>, <<"qi">>, <<"huo">>, <<"qie">>, <<"zhi">>, <<"de">>, <<"lan", "jiey">>, <<"deng", "yu">>, <<"shr", "ruy">>, <<"bian", "li">>, <<"dao", "ruy">>, <<"dey", "daoy">>, <<"pao", "chu">>, <<"ji", "xu", "xun", "huan">>, <<"jie", "shu", "xun", "huan">> >>
+KWName == << "Declare", "LogicYes", "AssignConst", "CondOther", "Cond", "Func", "Getter", "Return", "Assign", "LogicNo", "LogicNotEq", "LogicLte", "LogicGte", "LogicLt", "LogicGt", "VarOne", "CondElse", "WhileLoop", "ObjNew", "ObjDefine", "ObjThis", "LogicOr", "LogicAnd", "ObjDot", "ObjDotII", "CatchError", "LogicEqual", "Input", "Iterator", "Import", "GetResult", "ThrowError", "Continue", "Break" >>
+\* keyword atoms: "K7" stands for the glyphs of the 7th keyword (configurations that enumerate texts keyword by keyword)
+KAtomIdx(sym) == LET M == {k \in 1..Len(KW) : sym = "K" \o ToString(k)} IN IF M = {} THEN 0 ELSE CHOOSE k \in M : TRUE
+RECURSIVE Flatten(_)
+Flatten(s) == IF s = <<>> THEN <<>> ELSE (IF KAtomIdx(s[1]) > 0 THEN KW[KAtomIdx(s[1])] ELSE <<s[1]>>) \o Flatten(Tail(s))
 
 VARIABLES src, p, toks, st, soft
 vars == <<src, p, toks, st, soft>>
@@ -42,7 +48,7 @@ KwAt(i) == LET M == {k \in 1..Len(KW) : IsPrefixAt(KW[k], i)}
 RECURSIVE StrUpTo(_)
 StrUpTo(n) == IF n = 0 THEN {<<>>} ELSE LET S == StrUpTo(n - 1) IN S \cup {Append(t, c) : t \in {u \in S : Len(u) = n - 1}, c \in Alphabet}
 
-Init == /\ src \in StrUpTo(MaxLen) \ {<<>>}
+Init == /\ \E a \in StrUpTo(MaxLen) \ {<<>>} : src = Flatten(a)
         /\ p = 1 /\ toks = <<>> /\ st = "run"
         /\ soft = (src[1] = "sp")          \* leading blanks are INDENTATION (C03/C05), not token separation
 
